@@ -265,6 +265,14 @@ def check(run):
             ninv += 1
             run.touch(f_)
             _p14.no_member_after_handler(run, f_, 'udp' if 'udp' in f_.name else ('tcp' if 'tcp' in f_.name else 'lib'))
+    run.clause('a closed and re-used socket object carries nothing of its previous connection into the next: close(ec) resets every per-connection field on every normal path - segments still queued for retransmission would otherwise be re-sent into the old route and counted against the new window (shared with C05)')
+    import p05 as _p05
+    _p05.close_resets_rule(run)
+    run.clause('R1 no smart pointer is dereferenced after std::move gave its contents away (library-wide)')
+    nmv_ = engines.use_after_move(run, [f_ for f_ in fx.repo_functions() if f_.file.startswith(simlib.REPO_PREFIX + 'src/') or f_.file.startswith(simlib.REPO_PREFIX + 'include/')])
+    run.ok('R1', 'no-deref-after-move', 'scan', '', 'consumed std::move sites examined: %d' % nmv_, nontrivial=False)
+    if nmv_ < 20:
+        run.broke('only %d consumed std::move sites found in the library (about 100 expected)' % nmv_)
     if ninv < 3:
         run.broke('only %d library functions that invoke a handler inline found (queue::incoming_packet and on_lookup x2 at least)' % ninv)
     run.floor('R15', 7)
